@@ -104,6 +104,14 @@ func (te *TypeEnv) StructName(t types.Type) string {
 	} else if at, ok := t.(*types.Alias); ok {
 		name = te.TypeName(types.Unalias(at))
 	} else {
+		// identical anonymous struct types written at different places (a parameter type repeated in several
+		// signatures) are one Go type and one set of heaps
+		for prev, n := range te.structName {
+			if strings.HasPrefix(n, "anon") && types.Identical(prev, st) {
+				te.structName[st] = n
+				return n
+			}
+		}
 		name = fmt.Sprintf("anon%d", len(te.structName))
 	}
 	if prev, ok := te.structByNm[name]; ok && prev != st {
